@@ -28,6 +28,7 @@ let () =
   let handler =
     match Sys.argv with
     | [| _; "layout" |] -> layout
+    | [| _; "core" |] -> Corecmd.handle
     | _ -> prerr_endline "usage: svd <command>"; exit 2 in
   (try
      while true do
